@@ -416,4 +416,6 @@ def make_modules():
             return self._q.qsize()
 
     qm.SimpleQueue = _SimpleQueue
+    simmp.unknown_attribute_guard(th, "threading")
+    simmp.unknown_attribute_guard(qm, "queue")
     return th, qm
